@@ -92,7 +92,9 @@ func (r *DescribeConfigsResponse) decode(pd packetDecoder, version int16) (err e
 		return err
 	}
 
-	r.Resources = make([]*ResourceResponse, n)
+	if n >= 0 {
+		r.Resources = make([]*ResourceResponse, n)
+	}
 	for i := 0; i < n; i++ {
 		rr := &ResourceResponse{}
 		if err := rr.decode(pd, version); err != nil {
@@ -182,7 +184,9 @@ func (r *ResourceResponse) decode(pd packetDecoder, version int16) (err error) {
 		return err
 	}
 
-	r.Configs = make([]*ConfigEntry, n)
+	if n >= 0 {
+		r.Configs = make([]*ConfigEntry, n)
+	}
 	for i := 0; i < n; i++ {
 		c := &ConfigEntry{}
 		if err := c.decode(pd, version); err != nil {
@@ -276,7 +280,9 @@ func (r *ConfigEntry) decode(pd packetDecoder, version int16) (err error) {
 		if err != nil {
 			return err
 		}
-		r.Synonyms = make([]*ConfigSynonym, n)
+		if n >= 0 {
+			r.Synonyms = make([]*ConfigSynonym, n)
+		}
 
 		for i := 0; i < n; i++ {
 			s := &ConfigSynonym{}
